@@ -215,7 +215,67 @@ def slow_writer(ck, hb, ref, work, job, ctx):
     B.rmtree(cache)
 
 
-CORPUS = ["slow-writer Serial s"]
+def publication_gap(ck, hb, ref, work, job, ctx):
+    """A multi-file stage (io::stageFiles of {binary, output} in the OpenMP probe, {binary, build.log} in the vendor
+    probe) publishes its files one rename after the other.  Builder A is stopped for seconds right before the
+    LAST rename of each such stage (strace delay injection on exactly those renames); a second builder is started
+    as soon as the first file of the pair is visible, so that it meets the half-published stage."""
+    rec = os.path.join(work, "gap-rec.strace")
+    rcache = os.path.join(work, "cache-gap-rec")
+    B.rmtree(rcache)
+    B.run_traced(hb, rcache, job.args(), rec, follow=False)
+    recs = B.main_records(B.parse_strace(rec))
+    B.rmtree(rcache)
+    # a rename that follows another rename in the same directory with nothing but stat/close in between is the
+    # LAST rename of a multi-file stage: (ordinal, its target base, directory, base published just before it)
+    rn, n, prev = [], 0, None
+    for (pid, ts, name, args, ret, raw) in recs:
+        if name == "rename":
+            n += 1
+            a = (B.str_arg(args[0]) or b"").decode(errors="replace")
+            b = (B.str_arg(args[1]) or b"").decode(errors="replace")
+            d = os.path.dirname(a)
+            if prev is not None and prev[0] == d:
+                rn.append((n, os.path.basename(b), d, prev[1]))
+            prev = (d, os.path.basename(b))
+        elif name not in ("newfstatat", "close", "stat"):
+            prev = None
+    ck.cov["counters"]["publication_gaps"] = len(rn)
+    if not rn:
+        return
+    cache = os.path.join(work, "cache-gap")
+    B.rmtree(cache)
+    first, last = rn[0][0], rn[-1][0]
+    # strace takes one `when` per syscall: delay every rename in [first..last] that is the last of a stage - they are few
+    when = "%d..%d+%d" % (first, last, max(1, (last - first))) if len(rn) > 1 else "%d" % first
+    cmd = ["strace", "-o", os.path.join(work, "gap-a.strace"), "-e", "trace=rename",
+           "-e", "inject=rename:delay_enter=4000000:when=%s" % when, hb] + job.args()
+    pa = B.popen_group(cmd, B.run_env(cache))
+    others, seen_first = [], set()
+    t0 = time.time()
+    while pa.poll() is None and time.time() - t0 < 900:
+        for (k, lastbase, d, firstbase) in rn:
+            dd = os.path.join(cache, "cache", os.path.basename(d))
+            if k not in seen_first and os.path.exists(os.path.join(dd, firstbase)) and not os.path.exists(os.path.join(dd, lastbase)):
+                seen_first.add(k)
+                others.append(B.popen_group([hb] + job.args(), B.run_env(cache)))
+        time.sleep(0.005)
+    ra = B.finish_group(pa, 900)
+    res = [B.finish_group(p, 900) for p in others]
+    ck.cov["counters"]["publication_gap_builders"] = len(res)
+    ck.cov["evaluations"] += 1 + len(res)
+    desc = "publication-gap %s" % job.name()
+    for i, (rc, so, se) in enumerate([ra] + res):
+        if not outcome_ok(job, rc, so):
+            ck.oracle_violation("process %d of a concurrent batch of %d fails or computes wrong values: rc=%s out=%s"
+                                % (i, 1 + len(res), rc, (so.strip() or se.strip()[-200:])[:240]), desc, name="batch")
+    bad = B.cache_good(cache, ref)
+    if bad:
+        ck.oracle_violation("after a concurrent batch a final-named file is not a complete artefact: " + "; ".join(bad[:3]), desc, name="batch")
+    B.rmtree(cache)
+
+
+CORPUS = ["slow-writer Serial s", "publication-gap OpenMP s"]
 
 
 def main(argv):
@@ -250,10 +310,14 @@ def main(argv):
                 if m:
                     js = [Job(m.group(1), k[0], int(k[1:]), work) for k in m.group(6).split(",")]
                     plan.append((m.group(1), js, int(m.group(2)), int(m.group(3)), m.group(4) == "1", m.group(5) == "1"))
-                elif l.startswith("slow-writer"):
-                    plan.append(("slow", [Job(l.split()[1], l.split()[2], int(l.split()[3]) if len(l.split()) > 3 else C[0], work)], 0, 0, False, False))
+                elif l.startswith("slow-writer") or l.startswith("publication-gap"):
+                    plan.append(("slow" if l.startswith("slow") else "gap",
+                                 [Job(l.split()[1], l.split()[2], int(l.split()[3]) if len(l.split()) > 3 else C[0], work)], 0, 0, False, False))
         elif thorough:
             plan.append(("slow", [ser[0]], 0, 0, False, False))
+            plan.append(("slow", [omp[1]], 0, 0, False, False))
+            plan.append(("gap", [omp[0]], 0, 0, False, False))
+            plan.append(("gap", [ser[1]], 0, 0, False, False))
             for i in range(30):
                 mode = "Serial" if i % 3 else "OpenMP"
                 pool = ser if mode == "Serial" else omp
@@ -262,6 +326,7 @@ def main(argv):
                 plan.append((mode, js, n, rng.randint(0, 10**6), i % 5 == 0 and n <= 6, rng.random() < 0.3))
         else:
             plan.append(("slow", [ser[0]], 0, 0, False, False))
+            plan.append(("gap", [omp[0]], 0, 0, False, False))
             plan.append(("Serial", ser[:2], 8, rng.randint(0, 10**6), False, False))
             plan.append(("OpenMP", omp[:1], 3, rng.randint(0, 10**6), True, False))
         used = []
@@ -273,6 +338,8 @@ def main(argv):
         for (mode, js, n, seed, traced, prewarm) in plan:
             if mode == "slow":
                 slow_writer(ck, hb, ref, work, js[0], ctx)
+            elif mode == "gap":
+                publication_gap(ck, hb, ref, work, js[0], ctx)
             else:
                 batch(ck, hb, db, ref, work, mode, js, n, seed, traced, prewarm, ctx)
     finally:
